@@ -30,6 +30,10 @@ Commands:
   sw <sc> <kspec>                          → ok <sliding window> | err:<kind>
   op <sc> <af_in> <af_out> <names> <signals ;> <kspec>
                                            → ok <weight list after the call | none> <output> <names> <signals ;> | err:<kind>
+  opa <sc> one <af_in> <af_out | -> <names> <signals ;> <kspec>
+  opa <sc> many <ins ,> <outs , | -> <names> <signals ;> <kspec>
+                                           the argument forms of `Track.operate` (`-`: third argument omitted)
+                                           → ok <weight list after the call | none> <returned list | none> <names> <signals ;> | err:<kind>
   seq <sc> <dim> <names> <signals ;> <kspec> → ok <names> <signals ;> <globals> | err:<kind> <globals>
   session <sc> <n> { <dim> <names> <signals ;> <m> <kspec of m tokens> }*n
                                            → n replies of `seq` separated by ` # ` -/
@@ -58,6 +62,7 @@ def showErr : Err → String
   | .feature => "err:feature"
   | .emptyTrack => "err:empty-track"
   | .nanKernel => "err:nan-kernel"
+  | .operands => "err:operands"
 
 section
 variable {α : Type} [Add α] [Sub α] [Mul α] [Div α] [Neg α] [LT α] [LE α] [DecidableLT α] [DecidableLE α]
@@ -211,6 +216,31 @@ def handleSc (sc : Sc α) (cmd : String) (args : List String) : String :=
             | _ => "none"
           s!"ok {kafter} {showSignal sc out} {showTrack sc t'}"
         | .error e => showErr e
+    | _, _ => "bad-request"
+  | "opa", form :: a1 :: a3 :: names :: sigs :: ks =>
+    match seqArg? sc ks, track? sc names sigs with
+    | some k, some t =>
+      let src : Option (KSrc α) := match k with
+        | .k a => some (.arg a)
+        | .feat n => some (.feat n)
+        | .int _ => none
+      let nm : Option OpNames :=
+        if form == "one" then some (.one a1 (if a3 == "-" then none else some a3))
+        else if form == "many" then some (.many (splitTok a1 ',') (if a3 == "-" then none else some (splitTok a3 ',')))
+        else none
+      match src, nm with
+      | some src, some nm =>
+        match operateArgs t src nm with
+        | .ok (k', ret, t') =>
+          let kafter := match k' with
+            | .arg (.list l) => showList sc.shw l
+            | _ => "none"
+          let r := match ret with
+            | some out => showSignal sc out
+            | none => "none"
+          s!"ok {kafter} {r} {showTrack sc t'}"
+        | .error e => showErr e
+      | _, _ => "bad-request"
     | _, _ => "bad-request"
   | "seq", dim :: names :: sigs :: ks =>
     match seqArg? sc ks, track? sc names sigs, dim? dim with
